@@ -204,13 +204,25 @@ def rust_case(c):
         'll': ('&a0[..], a1.clone()', '(AsRef::<[u8]>::as_ref(a0), AsRef::<[u8]>::as_ref(a1))'),
         'ww': ('a0.clone(), a1.clone()', '(a0, a1)'),
     }[c.types]
+    # guard-free single alternative: which argument positions' sub-pattern rejects, by rustc's own match / == / != per position
+    if len(c.alts) == 1 and c.guard is None:
+        tests = []
+        for i, e in enumerate(c.alts[0]):
+            scrut = 't' if len(argtys) == 1 else f't.{i}'
+            if e[0] == 'P':
+                tests.append(f"if !(match {scrut} {{ {e[1].rust} => true, _ => false }}) {{ np.push(\"{i}\".to_string()); }}")
+            else:
+                tests.append(f"if !({scrut} {'==' if e[0] == 'EQ' else '!='} &{e[1]}) {{ np.push(\"{i}\".to_string()); }}")
+        npos_code = f"let t = {conv[1]}; let mut np: Vec<String> = vec![]; " + ' '.join(tests) + ' npos.push(np.join(","));'
+    else:
+        npos_code = 'npos.push("x".to_string());'
     loops = ''.join(f"for a{i} in {DOMAIN_RS[t][1]}.iter() {{ " for i, t in enumerate(argtys))
     closes = '}' * len(argtys)
     arms = '\n                '.join(native_arms(c))
     mt = macro_text(c)
     return f'''
 fn case_{c.ident}() {{
-    let (mut un, mut ord, mut nat, mut diag) = (String::new(), String::new(), String::new(), Vec::<String>::new());
+    let (mut un, mut ord, mut nat, mut diag, mut npos) = (String::new(), String::new(), String::new(), Vec::<String>::new(), Vec::<String>::new());
     {loops}
         let u = Unimock::new(MTMock::{c.method}.each_call(matching!({mt})).returns(1u32)).no_verify_in_drop();
         un.push(if accepts(|| u.{c.method}({conv[0]})).0 {{ '1' }} else {{ '0' }});
@@ -224,8 +236,10 @@ fn case_{c.ident}() {{
                 _ => false,
         }};
         nat.push(if n {{ '1' }} else {{ '0' }});
+        #[allow(unused_variables, unreachable_patterns, clippy::all)]
+        {{ {npos_code} }}
     {closes}
-    println!("case {c.ident} un={{}} ord={{}} native={{}} diag={{}}", un, ord, nat, diag.join(";"));
+    println!("case {c.ident} un={{}} ord={{}} native={{}} diag={{}} npos={{}}", un, ord, nat, diag.join(";"), npos.join(";"));
 }}
 '''
 
